@@ -93,11 +93,11 @@ REORDERED = ('discrete_perm', 'discrete_map', 'discrete_part')       # DiscreteR
 
 
 def reward_kinds(akind, tier):
-    ks = ['list', 'binary', 'discrete', 'lambda', 'discrete_perm', 'discrete_part']
+    ks = ['list', 'binary', 'discrete', 'lambda', 'discrete_perm', 'discrete_part', 'binary0v', 'binary_neg', 'binary_zero']
     if akind in HASHABLE: ks.append('discrete_map')
     if akind == 'num': ks.append('l1')
     if akind == 'labels': ks.append('hamming')
-    if tier != 'quick': ks += ['tuple', 'binary0v']
+    if tier != 'quick': ks += ['tuple']
     return ks
 
 
@@ -113,7 +113,9 @@ def make_fn(kind, akind, v, vals):
     if kind == 'list':          return list(vals), vals
     if kind == 'tuple':         return tuple(vals), vals
     if kind == 'binary':        return BinaryReward(A[-1]), [0] * (len(A) - 1) + [1]
-    if kind == 'binary0v':      return BinaryReward(A[0], 2.5), [2.5] + [0] * (len(A) - 1)
+    if kind == 'binary0v':      return BinaryReward(A[0], 2.5), [2.5] + [0] * (len(A) - 1)      # the rarely used `value` argument
+    if kind == 'binary_neg':    return BinaryReward(A[-1], -1), [0] * (len(A) - 1) + [-1]
+    if kind == 'binary_zero':   return BinaryReward(A[0], 0), [0] * len(A)                      # falsy value: dropping it pays 1
     if kind == 'discrete':      return DiscreteReward(A, list(vals)), vals
     if kind == 'discrete_perm': return DiscreteReward(A[::-1], vals[::-1]), vals
     if kind == 'discrete_map':  return DiscreteReward(dict(zip(A[::-1], vals[::-1]))), vals
@@ -567,20 +569,21 @@ WHAT = {'rewards': 'rewards ', 'feedbacks': 'feedbacks ', 'action': 'logged acti
 def profiles(tier):
     """(a, r, f, lg) interaction profiles, simplest first: one factor at a time around (action kind x reward kind)."""
     out = []
-    fks = ['list', 'lambda', 'discrete', 'binary', 'discrete_perm']
+    fks = ['list', 'lambda', 'discrete', 'binary', 'discrete_perm', 'discrete_part', 'binary0v', 'binary_neg', 'binary_zero']
     for ak in AKINDS:
         for rk in reward_kinds(ak, tier): out.append((0, ak, rk, None, None))
     for ak in AKINDS:
         for j in (0, -1): out.append((1, ak, None, None, ['pure', j]))
         for rk in reward_kinds(ak, tier):
             for j in (0, -1): out.append((1, ak, rk, None, ['sim', j]))
-            for fk in fks: out.append((2, ak, rk, fk, None))
+            for fk in fks:      # every feedback kind next to list/discrete rewards, list/lambda feedbacks next to every reward kind
+                if fk in ('list', 'lambda') or rk in ('list', 'discrete'): out.append((2, ak, rk, fk, None))
             if tier != 'quick': out.append((3, ak, rk, 'lambda', ['sim', -1]))
     out.sort(key=lambda t: t[0])
     return [t[1:] for t in out]
 
 
-CORE_R = ('list', 'binary', 'discrete', 'lambda', 'discrete_perm', 'l1', 'hamming')
+CORE_R = ('list', 'binary', 'binary0v', 'discrete', 'lambda', 'discrete_perm', 'l1', 'hamming')
 
 
 def core_profiles(tier):
@@ -589,8 +592,9 @@ def core_profiles(tier):
 
 PATTERN_KINDS = ('cat2', 'cat3', 'veccat', 'nestcat', 'num', 'sparsecat')
 MULTI_KINDS = ('sp1', 'sp2', 'sp3', 'sp4', 'sparse', 'cat3', 'vec', 'nestcat')
-MULTI_PROFILES = ([(r, None, None) for r in ('list', 'discrete', 'binary', 'lambda')] + [(r, 'lambda', None) for r in ('list', 'discrete', 'binary', 'lambda')]
-                  + [(r, None, ['sim', -1]) for r in ('list', 'discrete', 'binary', 'lambda')] + [(None, None, ['pure', 0])])
+MULTI_R = ('list', 'discrete', 'binary', 'binary0v', 'lambda')
+MULTI_PROFILES = ([(r, None, None) for r in MULTI_R] + [(r, 'lambda', None) for r in MULTI_R]
+                  + [(r, None, ['sim', -1]) for r in MULTI_R] + [(None, None, ['pure', 0])])
 
 
 class C10(Check):
@@ -599,9 +603,9 @@ class C10(Check):
     ENGINE = 'ENUM'
     RULE = ('cases = (interaction profile, chain of representation filters, entry point). Profile: 20 action kinds (numbers, strings, '
             'Categoricals over 2/3 levels, tuples, lists, nested lists/tuples, sparse dicts incl. nested values, vectors/dicts holding '
-            'Categoricals, Categoricals nested in list-in-list / tuple-in-tuple / dict-of-list / dict-in-list, mixed scalars, label lists, lazy HeadDense rows) x reward kind (list, tuple, BinaryReward, DiscreteReward in '
+            'Categoricals, Categoricals nested in list-in-list / tuple-in-tuple / dict-of-list / dict-in-list, mixed scalars, label lists, lazy HeadDense rows) x reward kind (list, tuple, BinaryReward with default value and with value 2.5 / -1 / 0, DiscreteReward in '
             'action order / reversed order / as mapping / partial with default, L1Reward, HammingReward, plain lambda) x one of {no extra, '
-            'IGL feedbacks of 5 kinds, logged action at first/last index with or without rewards} x interaction histories over two action sets (all of {A,B}^<=4 for 6 action kinds incl. categoricals, '
+            'IGL feedbacks of 9 kinds (every kind next to list/discrete rewards, list/lambda feedbacks next to every reward kind), logged action at first/last index with or without rewards} x interaction histories over two action sets (all of {A,B}^<=4 for 6 action kinds incl. categoricals, '
             '<=3 interactions for the rest). Chains: every sequence over the 36-op alphabet Repr(4x4) | Flatten | Sparsify(2x2) | Densify(2 methods x 2x2) | '
             'Noise(context / action const / action callable) | Batch(1|2) | Unbatch | Finalize that respects batching, enumerated '
             'exhaustively by length, simplest first; applied as filter objects and through the Environments shortcuts; plus, for 8 action kinds with different feature names/lengths, '
